@@ -24,6 +24,8 @@ type adtsFrame struct {
 	By  string          `json:"by"`  // "lib": written by aac.ADTS.Encode; "iso": written by the specification
 	Asc []int           `json:"asc"` // lib: the AudioSpecificConfig given to SetASC
 	Ld  json.RawMessage `json:"ld"`  // the frame as the specification lays it out
+	Hf  int             `json:"hf"`  // the first hf fields of ld are the header (+ error check), the rest is the raw data block
+	Rep int             `json:"rep"` // long streams: so many frames of this kind in a row (distinct raw blocks); absent = 1
 	Exp struct {
 		Raw struct {
 			N  int `json:"n"`
@@ -45,6 +47,8 @@ type adtsCase struct {
 	Fam    string      `json:"fam"`
 	Mask   []int       `json:"mask"`
 	Frames []adtsFrame `json:"frames"`
+	Cyc    int         `json:"cyc"`   // long streams: the runs of Frames in turn, so many times over; absent = 1
+	Total  int         `json:"total"` // long streams: bytes of the whole stream
 }
 
 // payload of a raw data block: the property quantifies over arbitrary payloads
@@ -69,20 +73,28 @@ func payload(mode string, n, id, seed, caseIdx int) []byte {
 	}
 }
 
-// expand the specification's frame with the given payload in place of the fill
-func expandFrame(l ld.LD, pay []byte, seed int) []byte {
-	var out []byte
-	for _, f := range l {
+// splitFrame expands the specification's frame: the header (+ error check) literally, the raw data block with every
+// pattern fill replaced by the payload of the mode (literal parts of the block - a frame carried as payload, bytes
+// that look like a header - stay what the specification says). inst tells frames of one run apart.
+func splitFrame(l ld.LD, hf int, mode string, seed, caseIdx, inst int, rng *rand.Rand) (head, body []byte) {
+	if hf < 1 || hf > 2 || hf >= len(l)+1 {
+		panic(fmt.Sprintf("frame layout of %d fields with %d header fields", len(l), hf))
+	}
+	head = l[:hf].Must(seed)
+	for _, f := range l[hf:] {
 		if f.K == "fill" {
-			if f.N != len(pay) {
-				panic(fmt.Sprintf("fill of %d bytes, payload of %d", f.N, len(pay)))
+			if rng != nil && mode == "random" { // long streams: one generator per stream, not one per frame
+				o := len(body)
+				body = append(body, make([]byte, f.N)...)
+				rng.Read(body[o:])
+				continue
 			}
-			out = append(out, pay...)
+			body = append(body, payload(mode, f.N, f.ID+17*inst, seed, caseIdx)...)
 			continue
 		}
-		out = append(out, ld.LD{f}.Must(seed)...)
+		body = append(body, ld.LD{f}.Must(seed)...)
 	}
-	return out
+	return head, body
 }
 
 func ascString(a *aac.AudioSpecificConfig) string {
@@ -93,103 +105,157 @@ func replayStream(c *rp.Ctx, i int, cs *adtsCase, mode string) rp.Result {
 	var stream []byte
 	var pays [][]byte
 	var offs []int
+	var kinds []int // index into cs.Frames of every frame of the stream
+	var runEnd []bool
+	cyc := cs.Cyc
+	if cyc == 0 {
+		cyc = 1
+	}
+	lds := make([]ld.LD, len(cs.Frames))
 	for k := range cs.Frames {
-		f := &cs.Frames[k]
-		l, err := ld.Parse(f.Ld)
+		l, err := ld.Parse(cs.Frames[k].Ld)
 		if err != nil {
 			panic(err)
 		}
-		pay := payload(mode, f.Exp.Raw.N, f.Exp.Raw.ID, c.Seed, i)
-		want := expandFrame(l, pay, c.Seed)
-		if len(want) != f.Exp.Size {
-			panic(fmt.Sprintf("frame %d: layout of %d bytes, specification says %d", k, len(want), f.Exp.Size))
-		}
-		var frame []byte
-		switch f.By {
-		case "iso":
-			frame = want
-		case "lib":
-			m, err := aac.NewADTS()
-			if err != nil {
-				return rp.Fail(i, "NewADTS: %v", err)
+		lds[k] = l
+	}
+	var rng *rand.Rand
+	if cyc > 1 || cs.Total != 0 {
+		rng = rand.New(rand.NewSource(int64(c.Seed)*1000003 + int64(i)*31))
+	}
+	inst := 0
+	for cy := 0; cy < cyc; cy++ {
+		for k := range cs.Frames {
+			f := &cs.Frames[k]
+			rep := f.Rep
+			if rep == 0 {
+				rep = 1
 			}
-			asc := []byte{byte(f.Asc[0]), byte(f.Asc[1])}
-			if err := m.SetASC(asc); err != nil {
-				return rp.Fail(i, "[%s] frame %d: SetASC(% x) of an accepted configuration failed: %v", mode, k, asc, err)
-			}
-			in := append([]byte(nil), pay...)
-			got, err := m.Encode(in)
-			if err != nil {
-				return rp.Fail(i, "[%s] frame %d: Encode of %d raw bytes with %s failed: %v", mode, k, len(pay), ascString(m.ASC()), err)
-			}
-			if !bytes.Equal(in, pay) {
-				return rp.Fail(i, "[%s] frame %d: Encode modified its input", mode, k)
-			}
-			if len(got) != len(want) {
-				return rp.Fail(i, "[%s] frame %d: Encode of %d raw bytes returned %d bytes, the ISO frame has %d", mode, k, len(pay), len(got), len(want))
-			}
-			// the header fields the property names, against ISO 13818-7 6.2
-			for j := 0; j < 7; j++ {
-				mk := byte(cs.Mask[j])
-				if got[j]&mk != want[j]&mk {
-					return rp.Fail(i, "[%s] frame %d: Encode header byte %d is %#02x, ISO layout %#02x under mask %#02x (asc % x, %d raw bytes; header % x, want % x)",
-						mode, k, j, got[j], want[j], mk, asc, len(pay), got[:7], want[:7])
+			var m aac.ADTS // one muxer per run
+			for r := 0; r < rep; r, inst = r+1, inst+1 {
+				if inst&1023 == 1023 {
+					rp.Alive()
 				}
+				head, pay := splitFrame(lds[k], f.Hf, mode, c.Seed, i, inst, rng)
+				if len(pay) != f.Exp.Raw.N || len(head)+len(pay) != f.Exp.Size {
+					panic(fmt.Sprintf("frame %d: layout of %d+%d bytes, specification says %d raw of %d", k, len(head), len(pay), f.Exp.Raw.N, f.Exp.Size))
+				}
+				var frame []byte
+				switch f.By {
+				case "iso":
+					frame = append(head, pay...)
+				case "lib":
+					asc := []byte{byte(f.Asc[0]), byte(f.Asc[1])}
+					if m == nil {
+						var err error
+						if m, err = aac.NewADTS(); err != nil {
+							return rp.Fail(i, "NewADTS: %v", err)
+						}
+						if err := m.SetASC(asc); err != nil {
+							return rp.Fail(i, "[%s] frame %d: SetASC(% x) of an accepted configuration failed: %v", mode, inst, asc, err)
+						}
+					}
+					in := append([]byte(nil), pay...)
+					got, err := m.Encode(in)
+					if err != nil {
+						return rp.Fail(i, "[%s] frame %d: Encode of %d raw bytes (% x..) with %s failed: %v", mode, inst, len(pay), pay[:min(len(pay), 8)], ascString(m.ASC()), err)
+					}
+					if !bytes.Equal(in, pay) {
+						return rp.Fail(i, "[%s] frame %d: Encode modified its input", mode, inst)
+					}
+					if len(got) != len(head)+len(pay) {
+						return rp.Fail(i, "[%s] frame %d: Encode of %d raw bytes (% x..) returned %d bytes, the ISO frame has %d", mode, inst, len(pay), pay[:min(len(pay), 8)], len(got), len(head)+len(pay))
+					}
+					// the header fields the property names, against ISO 13818-7 6.2
+					for j := 0; j < 7; j++ {
+						mk := byte(cs.Mask[j])
+						if got[j]&mk != head[j]&mk {
+							return rp.Fail(i, "[%s] frame %d: Encode header byte %d is %#02x, ISO layout %#02x under mask %#02x (asc % x, %d raw bytes; header % x, want % x)",
+								mode, inst, j, got[j], head[j], mk, asc, len(pay), got[:7], head[:7])
+						}
+					}
+					if !bytes.Equal(got[7:], pay) {
+						return rp.Fail(i, "[%s] frame %d: Encode output after the header is not the raw block: %s", mode, inst, rp.FirstDiff(got[7:], pay))
+					}
+					frame = got
+				default:
+					panic("unknown writer " + f.By)
+				}
+				offs = append(offs, len(stream))
+				pays = append(pays, pay)
+				kinds = append(kinds, k)
+				runEnd = append(runEnd, cy == cyc-1 && r == rep-1)
+				stream = append(stream, frame...)
 			}
-			if !bytes.Equal(got[7:], pay) {
-				return rp.Fail(i, "[%s] frame %d: Encode output after the header is not the raw block: %s", mode, k, rp.FirstDiff(got[7:], pay))
-			}
-			frame = got
-		default:
-			panic("unknown writer " + f.By)
 		}
-		offs = append(offs, len(stream))
-		pays = append(pays, pay)
-		stream = append(stream, frame...)
+	}
+	if cs.Total != 0 && cs.Total != len(stream) {
+		panic(fmt.Sprintf("stream of %d bytes, specification says %d", len(stream), cs.Total))
 	}
 
+	// one demuxer, one buffer: every Decode gets what the one before left
 	pristine := append([]byte(nil), stream...)
+	long := len(stream) > 1<<15
 	d, err := aac.NewADTS()
 	if err != nil {
 		return rp.Fail(i, "NewADTS: %v", err)
 	}
 	rest := stream
-	for k := range cs.Frames {
+	for n, k := range kinds {
+		if n&1023 == 1023 {
+			rp.Alive()
+		}
 		f := &cs.Frames[k]
-		end := offs[k] + f.Exp.Size
-		desc := fmt.Sprintf("[%s] frame %d/%d (%s, protection_absent=%d, profile=%d sfi=%d channels=%d, %d raw bytes, header % x)",
-			mode, k, len(cs.Frames), f.By, f.Exp.Prot, f.Exp.Profile, f.Exp.Sfi, f.Exp.Chan, f.Exp.Raw.N, pristine[offs[k]:offs[k]+7])
+		end := offs[n] + f.Exp.Size
+		wantLeft := len(pristine) - end
+		if runEnd[n] && wantLeft != f.Exp.Left {
+			panic(fmt.Sprintf("frame %d: %d bytes follow, specification says %d", n, wantLeft, f.Exp.Left))
+		}
+		desc := func() string {
+			return fmt.Sprintf("[%s] frame %d/%d at offset %d of %d (%s, protection_absent=%d, profile=%d sfi=%d channels=%d, %d raw bytes, header % x; Decode was given %d bytes)",
+				mode, n, len(kinds), offs[n], len(pristine), f.By, f.Exp.Prot, f.Exp.Profile, f.Exp.Sfi, f.Exp.Chan, f.Exp.Raw.N, pristine[offs[n]:offs[n]+7], len(rest))
+		}
 		raw, left, err := d.Decode(rest)
 		if err != nil {
-			return rp.Result{OK: false, What: fmt.Sprintf("%s: Decode failed: %v", desc, err), Deviation: crcDeviation(f, pristine[offs[k]:end], pays[k])}
+			return rp.Result{OK: false, What: fmt.Sprintf("%s: Decode failed: %v", desc(), err), Deviation: crcDeviation(f, pristine[offs[n]:end], pays[n])}
 		}
-		if !bytes.Equal(raw, pays[k]) {
-			return rp.Result{OK: false, What: fmt.Sprintf("%s: raw block differs: %s", desc, rp.FirstDiff(raw, pays[k])),
-				Deviation: crcDeviation(f, pristine[offs[k]:end], pays[k]), Observed: map[string]int{"raw": len(raw), "left": len(left)}}
+		if !bytes.Equal(raw, pays[n]) {
+			return rp.Result{OK: false, What: fmt.Sprintf("%s: raw block differs: %s", desc(), rp.FirstDiff(raw, pays[n])),
+				Deviation: crcDeviation(f, pristine[offs[n]:end], pays[n]), Observed: map[string]int{"raw": len(raw), "left": len(left)}}
 		}
-		if len(left) != f.Exp.Left || !bytes.Equal(left, pristine[end:]) {
-			return rp.Fail(i, "%s: remainder has %d bytes, specification: %d bytes (the following frames): %s", desc, len(left), f.Exp.Left, rp.FirstDiff(left, pristine[end:]))
+		// the remainder: exactly the following frames (a remainder that IS the tail of the buffer handed in needs no
+		// byte comparison of its own: the buffer is compared with its pristine copy below)
+		if len(left) != wantLeft || !(len(left) > 0 && long && &left[0] == &stream[end]) && !bytes.Equal(left, pristine[end:]) {
+			return rp.Fail(i, "%s: remainder has %d bytes, specification: %d bytes (the following frames): %s", desc(), len(left), wantLeft, rp.FirstDiff(left, pristine[end:]))
 		}
 		if len(left) > 0 && (len(left) < 2 || left[0] != 0xff || left[1]&0xf0 != 0xf0) {
-			return rp.Fail(i, "%s: remainder does not start at a sync word: % x", desc, left[:2])
+			return rp.Fail(i, "%s: remainder does not start at a sync word: % x", desc(), left[:2])
 		}
 		a := d.ASC()
 		if a == nil {
-			return rp.Fail(i, "%s: ASC() is nil after Decode", desc)
+			return rp.Fail(i, "%s: ASC() is nil after Decode", desc())
 		}
 		if int(a.Object.ToProfile()) != f.Exp.Profile || int(a.SampleRate) != f.Exp.Sfi || int(a.Channels) != f.Exp.Chan {
-			return rp.Fail(i, "%s: Decode reports %s (ADTS profile %d), want profile=%d sfi=%d channels=%d", desc, ascString(a), a.Object.ToProfile(), f.Exp.Profile, f.Exp.Sfi, f.Exp.Chan)
+			return rp.Fail(i, "%s: Decode reports %s (ADTS profile %d), want profile=%d sfi=%d channels=%d", desc(), ascString(a), a.Object.ToProfile(), f.Exp.Profile, f.Exp.Sfi, f.Exp.Chan)
 		}
 		if a.SampleRate.ToHz() != f.Exp.Hz {
-			return rp.Fail(i, "%s: sampling index %d converts to %d Hz, ISO table: %d", desc, a.SampleRate, a.SampleRate.ToHz(), f.Exp.Hz)
+			return rp.Fail(i, "%s: sampling index %d converts to %d Hz, ISO table: %d", desc(), a.SampleRate, a.SampleRate.ToHz(), f.Exp.Hz)
 		}
-		if !bytes.Equal(stream, pristine) {
-			return rp.Fail(i, "%s: Decode modified the stream: %s", desc, rp.FirstDiff(stream, pristine))
+		// long streams: this frame and the head of the next one now, the whole buffer after the last frame
+		lo, hi := 0, len(stream)
+		if long {
+			lo, hi = offs[n], min(end+16, len(stream))
+		}
+		if !bytes.Equal(stream[lo:hi], pristine[lo:hi]) {
+			return rp.Fail(i, "%s: Decode modified the stream: %s", desc(), rp.FirstDiff(stream[lo:hi], pristine[lo:hi]))
 		}
 		rest = left
 	}
 	if len(rest) != 0 {
 		return rp.Fail(i, "[%s] %d bytes left over after the last frame", mode, len(rest))
+	}
+	if !bytes.Equal(stream, pristine) {
+		return rp.Fail(i, "[%s] Decode modified the stream: %s", mode, rp.FirstDiff(stream, pristine))
 	}
 
 	// the configuration Decode left in the object is an accepted one: Encode with it round-trips too
